@@ -500,3 +500,18 @@ package builder
 //@   modifies b.basicLatinLookupTable
 //@   ensures [sets C15] b.basicLatinLookupTable == basicLatinLookupTable
 //@   safety C13
+
+// BuildParser: the API entry of the generator. Applying an option value is an assumed generic contract (function
+// values are opaque): it may set any of the five flags and nothing else.
+//@ extern Option(b *builder) (prev Option)
+//@   requires [ctx] b != nil
+//@   modifies b.recvName, b.optimize, b.supportLeftRecursion, b.nolint, b.basicLatinLookupTable
+//@ func (b *builder) setOptions(opts []Option)
+//@   requires [ctx] b != nil
+//@   modifies b.recvName, b.optimize, b.supportLeftRecursion, b.nolint, b.basicLatinLookupTable
+//@   loop#1 invariant [ctx] b != nil
+//@   safety C13
+//@ func BuildParser(w io.Writer, g *ast.Grammar, opts []Option) (res error)
+//@   requires [wf] g != nil && TreeWF() && CodeWF() && forall k int :: 0 <= k && k < len(g.Rules) ==> g.Rules[k] != nil
+//@   modifies Flags, all Rule.LeftRecursive, all Rule.Leader, all ActionExpr.FuncIx, all AndCodeExpr.FuncIx, all NotCodeExpr.FuncIx, all StateCodeExpr.FuncIx, all builder.err, all builder.exprIndex, all builder.ruleName, all builder.globalState, all builder.rangeTable, all builder.argsStack, all builder.haveLeftRecursion
+//@   safety C13
